@@ -95,6 +95,20 @@ Theorem C04_frozen_marginal_exact : forall shape grids pops f i pf dj tf,
 Proof. exact integrate_preserves_frozen_marginal. Qed.
 Print Assumptions C04_frozen_marginal_exact.
 
+(** the same under the time-dependent driver: every parameter of the other populations and theta0 may be functions of time *)
+Theorem C04_frozen_marginal_exact_timedep : forall shape grids popsf thetaf f i dj tf,
+  (forall s, wf_pops shape (popsf s)) -> length grids = length shape -> (forall n, In n shape -> (2 <= n)%nat) ->
+  (forall k, (k < length shape)%nat ->
+     length (nth k grids []) = ax_len shape k /\ (2 <= ax_len shape k)%nat /\
+     (forall j, (j < length (nth k grids []) - 1)%nat -> 0 < dx (nth k grids []) j)) ->
+  (f < length shape)%nat -> (forall s, exists pf, nth_error (popsf s) f = Some pf /\ p_frozen pf = true) -> i <> 0%nat ->
+  nthF (nth f grids []) i <> 0 /\ nthF (nth f grids []) i <> 1 ->
+  0 < tf -> (forall s dt, 0 < dt -> nonsingular shape grids (popsf s) dj dt) ->
+  forall fuel t T phi res,
+  integrate_tdep fuel shape grids popsf thetaf tf dj t T phi = Some res ->
+  marginal_at shape grids f i res = marginal_at shape grids f i phi.
+Proof. exact integrate_tdep_preserves_frozen_marginal. Qed.
+
 (** total trapezoid mass of a d-dimensional density: a sweep of population k changes it only by dt times the
     outflow on its lines, and the outflow coefficients vanish on every line that is not an all-0 / all-1 corner line *)
 Theorem C04_sweep_total_mass_balance : forall shape grids pops k p, (k < length shape)%nat -> nth_error pops k = Some p ->
